@@ -19,6 +19,9 @@ def main():
     sub.add_parser("selftest")
     a = ap.parse_args()
     if a.cmd == "check":
+        if a.tier == "thorough":
+            # every unsat verdict of z3 is also put to cvc5 (read at import time by pyvc.interp)
+            os.environ.setdefault("PYVC_SECOND_OPINION", "1")
         import properties_map
         from pyvc import driver
 
